@@ -69,7 +69,8 @@ Inductive step_kind (s : sys) (th : tid) (e : event) (s' : sys) : Prop :=
 | KResume : e = EResume -> s' = s -> step_kind s th e s'
 | KBegin (i : iid) (x : inst) : e = EBegin i -> get i (insts s) = Some x -> get th (thinst s) = None -> get th (threads s) = None ->
     (forall (t : tid) (j : iid), get t (thinst s) = Some j -> j <> i) ->
-    s' = s <| thinst := set th i (thinst s) |> -> step_kind s th e s'
+    (exists cth, get i (stage s) = Some (cth, 3)) ->
+    s' = s <| thinst := set th i (thinst s) |> <| stage := del i (stage s) |> -> step_kind s th e s'
 | KReg : step_reg s th e = Some s' -> step_kind s th e s'
 | KApi : step_api s th e = Some s' -> step_kind s th e s'
 | KStop : step_stop s th e = Some s' -> step_kind s th e s'
@@ -94,7 +95,8 @@ Proof.
   try (now apply KEnv); try (now apply KOwn).
   - break_step H. split_andb. unfold has in *.
     destruct (get th (thinst s)) eqn:E3; [discriminate|]. destruct (get th (threads s)) eqn:E4; [discriminate|].
-    eapply KBegin; eauto using forallb_thinst_neq.
+    destruct (get i (stage s)) as [[cth [|[|[|[|k]]]]]|] eqn:E5; try discriminate.
+    subst s'. eapply KBegin; eauto using forallb_thinst_neq.
   - eapply KState; eauto.
   - injection H as <-. now apply KResume.
   - eapply (KProcEnd _ _ _ _ i s0 true); eauto.
